@@ -101,11 +101,11 @@ def parse_line_prefix_stable(B, which):
 
 for _w in EOLSETS:
     def _mk(w=_w):
-        @contract(HTTPING + ":parseLine", props=["C13", "C15", "C16", "C17"], name=HTTPING + ":parseLine[step, eols=%s]" % w)
+        @contract(HTTPING + ":parseLine", props={"crlf": ["C13", "C17", "C16"], "crlf_lf": ["C13", "C16"], "crlf_lf_cr": ["C15", "C16"]}[w], name=HTTPING + ":parseLine[step, eols=%s]" % w, z3_ms=1500)
         def _a(B):
             parse_line_step(B, w)
 
-        @contract(HTTPING + ":parseLine", props=["C13", "C15", "C17"], name=HTTPING + ":parseLine[prefix-stability, eols=%s]" % w)
+        @contract(HTTPING + ":parseLine", props={"crlf": ["C13", "C17"], "crlf_lf": ["C13"], "crlf_lf_cr": ["C15"]}[w], name=HTTPING + ":parseLine[prefix-stability, eols=%s]" % w, z3_ms=1500)
         def _b(B):
             parse_line_prefix_stable(B, w)
     _mk()
